@@ -221,6 +221,27 @@ theorem reachdist_correct (A : AMat Rat n) :
     rw [hopLenN_binarize] at key
     exact key
 
+/-- the evaluation order the driver uses (`reachdistF`, every intermediate value computed once) is the same function as
+`reachdist`: the theorems about `reachdist` are theorems about what the driver prints -/
+theorem reachStepF_eq (C : AMat ℕ n) (s : RSt n) : reachStepF C s = reachStep C s := rfl
+
+theorem reachGoFtail_eq (C : AMat ℕ n) (rows cols : List (Fin n)) : ∀ (rem powr : ℕ) (s : RSt n),
+    reachGoF' C rows cols rem powr (reachStep C s) = reachGo C rows cols rem powr s := by
+  intro rem
+  induction rem with
+  | zero => intro powr s; rfl
+  | succ rem ih =>
+    intro powr s
+    simp only [reachGoF', reachGo, reachStepF_eq]
+    split_ifs
+    · exact ih (powr + 1) (reachStep C s)
+    · rfl
+
+theorem reachdistF_eq (A : AMat Rat n) : reachdistF A = reachdist A := by
+  unfold reachdistF reachdistCF reachPackF reachRunF reachdist
+  rw [reachStepF_eq, reachGoFtail_eq]
+  rfl
+
 /-! ## breadth / breadthdist -/
 
 /-- **`breadth_correct`**: for a matrix with empty diagonal (BCT convention; a self-loop at the source makes the code report
